@@ -13,8 +13,8 @@ GatesOf(p) ==
                            "required_item", "locator_type", "parent_resolved", "bat_region">>
     [] p = "vdi"      -> <<"signature">>
     [] p = "hds"      -> <<"signature">>
-    [] p = "hdd"      -> <<"descriptor_present", "image_type">>
-    [] p = "vmdk-sparse" -> <<"magic">>
+    [] p = "hdd"      -> <<"descriptor_present", "image_type", "parent_image_type">>   \* image types of every snapshot in the chain
+    [] p = "vmdk-sparse" -> <<"magic", "footer_magic">>                                 \* stream-optimised extents carry a second header at the end
     [] p = "hyperv"   -> <<"header_signature", "version", "replay_log_signature", "object_table_signature", "key_table_signature">>
     [] p = "envelope" -> <<"magic", "version", "attr_keyinfo", "attr_ciphername", "attr_keyhash", "cipher", "aead_footer_version">>
     [] p = "keystore" -> <<"mode_present", "mode_none">>
